@@ -163,6 +163,7 @@ func propC01(j *Job) {
 		cases = append(cases, famZ6([]int{33000})...)
 	}
 	cases = append(cases, famZ8([]int{32769, 32770, 32771})...)
+	cases = append(cases, famZ9(modes, 1)...)
 	runCases(j, cases, func(spec *xferSpec) func(m *Sim, x *Exec, r *xferResult) {
 		return deliveryFinal(spec, false, monOpts{})
 	})
@@ -195,6 +196,7 @@ func propC02(j *Job) {
 		cases = append(cases, famKS(modes[:2], 2, false, []time.Duration{0}, 3)...)
 		cases = append(cases, famZ7(modes, 0)...)
 	}
+	cases = append(cases, famZ9(modes, 1)...)
 	runCases(j, cases, func(spec *xferSpec) func(m *Sim, x *Exec, r *xferResult) { return deliveryFinal(spec, true, monOpts{}) })
 	// reliable streams next to a partially reliable one whose message is lost and abandoned:
 	// whatever else is lost (the FORWARD-TSN, its acknowledgement), the reliable data still gets
